@@ -716,6 +716,35 @@ pub fn canon_selector(s: &str) -> String {
                 brackets -= 1;
                 out.push(c);
             }
+            '(' if brackets == 0 && out.rsplit(':').next().map_or(false, |n| n.starts_with("nth-")) => {
+                // An+B microsyntax (`:nth-child(2n + 1 of .a)`): not selector syntax, kept verbatim
+                let mut depth = 0i32;
+                while i < chars.len() {
+                    let d = chars[i];
+                    if d == ',' {
+                        // `of <selector-list>`
+                        while out.ends_with(' ') {
+                            out.pop();
+                        }
+                        out.push_str(", ");
+                        while i + 1 < chars.len() && chars[i + 1] == ' ' {
+                            i += 1;
+                        }
+                        i += 1;
+                        continue;
+                    }
+                    out.push(d);
+                    if d == '(' {
+                        depth += 1;
+                    } else if d == ')' {
+                        depth -= 1;
+                        if depth == 0 {
+                            break;
+                        }
+                    }
+                    i += 1;
+                }
+            }
             '(' if brackets == 0 => {
                 out.push(c);
                 while i + 1 < chars.len() && chars[i + 1] == ' ' {
